@@ -151,6 +151,12 @@ def validate_traces(scratch, impl, events, name="trace", timeout=900, module="MC
     with open(tf, "w") as f:
         for ev in events:
             f.write(json.dumps(ev, separators=(",", ":")) + "\n")
+        if module == "MCtrace":
+            # sentinel: starts a (never judged) new trace so that the last real trace is closed
+            end = json.loads(json.dumps(events[0]))
+            end.update({"tr": "__end", "i": 1})
+            end["call"] = dict(end["call"], op="wrap", flag=["none"])
+            f.write(json.dumps(end, separators=(",", ":")) + "\n")
     wd = scratch.path("tlc-" + name + "-" + impl)
     os.makedirs(wd, exist_ok=True)
     r = run_tlc_in(wd, module, cfg, env={"VERIF_TRACE": tf, "VERIF_IMPL": impl}, workers=1, timeout=timeout)
@@ -162,9 +168,10 @@ def validate_traces(scratch, impl, events, name="trace", timeout=900, module="MC
         raise Infra("trace validation did not consume the whole trace:\n" + out[-4000:])
     kf = re.search(r'<<\s*"KFUSED",\s*\{(.*?)\}\s*>>', out, re.S)
     un = re.search(r'<<\s*"UNEXPLAINED",\s*\{(.*?)\}\s*>>', out, re.S)
-    kf_used = re.findall(r'"([^"]+)"', kf.group(1)) if kf else []
+    kf_used = sorted({x for lab in (re.findall(r'"([^"]+)"', kf.group(1)) if kf else []) for x in lab.split("+")})
     unexplained = [(a, int(b)) for a, b in re.findall(r'<<\s*"([^"]+)",\s*(\d+)\s*>>', un.group(1))] if un else []
-    return {"kf_used": kf_used, "unexplained": unexplained, "judged": int(m.group(1)), "skipped": int(m.group(2)),
+    judged = int(m.group(1)) - (1 if module == "MCtrace" else 0)
+    return {"kf_used": kf_used, "unexplained": unexplained, "judged": judged, "skipped": int(m.group(2)),
             "wall": r["wall"]}
 
 
